@@ -1,5 +1,95 @@
-/- C10 — property theorems only. -/
+/-
+C10 — the paste shortcut is pixel-identical to a nearest-neighbour warp.
+
+Property theorems only (helpers: `Lemmas/C10.lean`; planning model: `Model/C03.lean`; paste
+operation: `Model/C10.lean`; reference warp: `Spec/Warp.lean`).
+-/
 import OdcGeo.Model.C10
+import OdcGeo.Lemmas.C10
+import OdcGeo.Props.C03
 namespace OdcGeo.C10
+open OdcGeo.C17 OdcGeo.C03
+
+/-- **Paste = nearest-neighbour warp** (read-shrink 1).  `S` is the snapped transform the plan was
+computed from (`box_overlap src dst S`), `A` the *true* destination→source transform.  For every
+destination pixel whose true centre image is within half a pixel of the snapped one (always the
+case for a pure sub-pixel residue `|ε| < ttol ≤ ½`; for a scale residue `δ` as long as
+`|δ|·N + |ε| < ½`), the pasted image — `roi_src` copied into `roi_dst`, reversed along mirrored axes,
+`nodata` elsewhere — has exactly the value the nearest-neighbour warp of the whole source
+produces, for any pixel type `α`. -/
+theorem paste_eq_warp {α : Type} (img : Int → Int → α) (nodata : α) (src dst : Shape) (S A : Aff) (tx ty : Int)
+    (hS : IsUnitST S tx ty) (hs : 0 ≤ src.1 ∧ 0 ≤ src.2) (hd : 0 ≤ dst.1 ∧ 0 ≤ dst.2)
+    (r : ROI × ROI) (h : boxOverlap src dst S = .ok r) (dy dx : Int)
+    (hdy : 0 ≤ dy ∧ dy < dst.1) (hdx : 0 ≤ dx ∧ dx < dst.2)
+    (hnx : rabs ((A.apply ((dx : Rat) + 1 / 2, (dy : Rat) + 1 / 2)).1 - (S.apply ((dx : Rat) + 1 / 2, (dy : Rat) + 1 / 2)).1) < 1 / 2)
+    (hny : rabs ((A.apply ((dx : Rat) + 1 / 2, (dy : Rat) + 1 / 2)).2 - (S.apply ((dx : Rat) + 1 / 2, (dy : Rat) + 1 / 2)).2) < 1 / 2) :
+    pasted img (decide (S.e < 0)) (decide (S.a < 0)) r.1 r.2 nodata dy dx = Warp.nnWarp img src A nodata dy dx := by
+  obtain ⟨yy, xx, hy, hx, rfl⟩ := boxOverlap_ok h
+  have ex : (S.apply ((dx : Rat) + 1 / 2, (dy : Rat) + 1 / 2)).1 = S.a * ((dx : Rat) + 1 / 2) + (tx : Rat) := by
+    simp [Aff.apply, hS.b0, hS.c]
+  have ey : (S.apply ((dx : Rat) + 1 / 2, (dy : Rat) + 1 / 2)).2 = S.e * ((dy : Rat) + 1 / 2) + (ty : Rat) := by
+    simp [Aff.apply, hS.d0, hS.f]
+  rw [ex] at hnx
+  rw [ey] at hny
+  rw [hS.c] at hx
+  rw [hS.f] at hy
+  have px := paste_axis src.2 dst.2 S.a tx hS.a1 hs.2 hd.2 xx hx dx hdx _ hnx
+  have py := paste_axis src.1 dst.1 S.e ty hS.e1 hs.1 hd.1 yy hy dy hdy _ hny
+  simp only [Warp.nnWarp, pasted, px, py]
+  by_cases my : yy.2.start ≤ dy ∧ dy < yy.2.stop <;> by_cases mx : xx.2.start ≤ dx ∧ dx < xx.2.stop
+  · rw [if_pos my, if_pos mx, if_pos ⟨my.1, my.2, mx.1, mx.2⟩]
+  · rw [if_pos my, if_neg mx, if_neg (fun hc => mx ⟨hc.2.2.1, hc.2.2.2⟩)]
+  · rw [if_neg my, if_neg (fun hc => my ⟨hc.1, hc.2.1⟩)]
+  · rw [if_neg my, if_neg (fun hc => my ⟨hc.1, hc.2.1⟩)]
+
+/-- **Equal shapes.**  For a snapped transform the planned source and destination regions have the
+same shape (what a direct copy needs). -/
+theorem paste_roi_shapes_equal (src dst : Shape) (S : Aff) (tx ty : Int) (hS : IsUnitST S tx ty)
+    (hs : 0 ≤ src.1 ∧ 0 ≤ src.2) (hd : 0 ≤ dst.1 ∧ 0 ≤ dst.2) (r : ROI × ROI)
+    (h : boxOverlap src dst S = .ok r) :
+    r.1.1.stop - r.1.1.start = r.2.1.stop - r.2.1.start ∧ r.1.2.stop - r.1.2.start = r.2.2.stop - r.2.2.start := by
+  obtain ⟨yy, xx, hy, hx, rfl⟩ := boxOverlap_ok h
+  rw [hS.c] at hx
+  rw [hS.f] at hy
+  constructor
+  · rcases hS.e1 with e | e <;> rw [e] at hy
+    · exact (axis_unit_pos _ _ _ hs.1 hd.1 yy hy).2.2
+    · exact (axis_unit_neg _ _ _ hs.1 hd.1 yy hy).2.2
+  · rcases hS.a1 with e | e <;> rw [e] at hx
+    · exact (axis_unit_pos _ _ _ hs.2 hd.2 xx hx).2.2
+    · exact (axis_unit_neg _ _ _ hs.2 hd.2 xx hx).2.2
+
+/-- The destination region of a snapped plan is *exactly* the set of destination pixels whose
+snapped centre falls inside the source image (nothing needed is dropped, nothing outside is
+overwritten). -/
+theorem paste_dst_exact (src dst : Shape) (S : Aff) (tx ty : Int) (hS : IsUnitST S tx ty)
+    (hs : 0 ≤ src.1 ∧ 0 ≤ src.2) (hd : 0 ≤ dst.1 ∧ 0 ≤ dst.2) (r : ROI × ROI)
+    (h : boxOverlap src dst S = .ok r) (dy dx : Int) (hdy : 0 ≤ dy ∧ dy < dst.1) (hdx : 0 ≤ dx ∧ dx < dst.2) :
+    ((r.2.1.start ≤ dy ∧ dy < r.2.1.stop) ∧ (r.2.2.start ≤ dx ∧ dx < r.2.2.stop)) ↔
+    ((Warp.nnIndex src.1 (S.apply ((dx : Rat) + 1 / 2, (dy : Rat) + 1 / 2)).2).isSome ∧
+     (Warp.nnIndex src.2 (S.apply ((dx : Rat) + 1 / 2, (dy : Rat) + 1 / 2)).1).isSome) := by
+  obtain ⟨yy, xx, hy, hx, rfl⟩ := boxOverlap_ok h
+  have ex : (S.apply ((dx : Rat) + 1 / 2, (dy : Rat) + 1 / 2)).1 = S.a * ((dx : Rat) + 1 / 2) + (tx : Rat) := by
+    simp [Aff.apply, hS.b0, hS.c]
+  have ey : (S.apply ((dx : Rat) + 1 / 2, (dy : Rat) + 1 / 2)).2 = S.e * ((dy : Rat) + 1 / 2) + (ty : Rat) := by
+    simp [Aff.apply, hS.d0, hS.f]
+  rw [hS.c] at hx
+  rw [hS.f] at hy
+  have z : rabs (0 : Rat) < 1 / 2 := by simp [rabs]
+  have px := paste_axis src.2 dst.2 S.a tx hS.a1 hs.2 hd.2 xx hx dx hdx (S.a * ((dx : Rat) + 1 / 2) + (tx : Rat)) (by simpa using z)
+  have py := paste_axis src.1 dst.1 S.e ty hS.e1 hs.1 hd.1 yy hy dy hdy (S.e * ((dy : Rat) + 1 / 2) + (ty : Rat)) (by simpa using z)
+  rw [ex, ey, px, py]
+  by_cases my : yy.2.start ≤ dy ∧ dy < yy.2.stop <;> by_cases mx : xx.2.start ≤ dx ∧ dx < xx.2.stop <;>
+    simp [my, mx]
+
+/-- Counterexample to "paste = warp" without the half-pixel bound (model side of known finding
+`paste-scale-drift-differs-from-warp`): true x-scale `1 + 1/1024` (within `stol = 1e-3`, so snapped
+to 1), 2048-pixel row holding its own column index.  The plan copies column 2000 to column 2000,
+the nearest-neighbour warp reads column `⌊2000.5·1025/1024⌋ = 2002`. -/
+theorem paste_drift_warp_cex :
+    boxOverlap (1, 2048) (1, 2048) ⟨1, 0, 0, 0, 1, 0⟩ = .ok ((⟨0, 1⟩, ⟨0, 2048⟩), (⟨0, 1⟩, ⟨0, 2048⟩)) ∧
+    pasted (fun _ c => c) false false (⟨0, 1⟩, ⟨0, 2048⟩) (⟨0, 1⟩, ⟨0, 2048⟩) (-1) 0 2000 = 2000 ∧
+    Warp.nnWarp (fun _ c => c) (1, 2048) ⟨1025 / 1024, 0, 0, 0, 1, 0⟩ (-1) 0 2000 = 2002 := by
+  refine ⟨by decide +kernel, by decide +kernel, by decide +kernel⟩
 
 end OdcGeo.C10
